@@ -54,6 +54,8 @@ fn vis(s: &str) -> Visibility {
         "public" => Visibility::Public,
         "super" => Visibility::PublicSuper,
         "crate" => Visibility::PublicCrate,
+        "self" => Visibility::PublicSelf,
+        "in" => Visibility::PublicIn("crate".to_string()),
         _ => Visibility::Private,
     }
 }
@@ -194,6 +196,10 @@ pub fn main(args: &[String]) -> i32 {
             if let Some(x) = o2["lex_vis"].as_str() {
                 b = b.visibility(match x {
                     "public" => lrlex::Visibility::Public,
+                    "super" => lrlex::Visibility::PublicSuper,
+                    "self" => lrlex::Visibility::PublicSelf,
+                    "crate" => lrlex::Visibility::PublicCrate,
+                    "in" => lrlex::Visibility::PublicIn("crate".to_string()),
                     _ => lrlex::Visibility::Private,
                 });
             }
